@@ -412,8 +412,16 @@ def run(ctx, drv):
                 cobjs1 = concretise(R, objs, jobs)     # same configured command lines up to the log file name
                 ev1, err1 = R.run(cobjs1, {p: v for p, v in init.items() if p == j["path"]}, seg1)
                 n1 = lambda s: s.replace(str(R.log), "<log>").replace(str(R.outroot), "<out>")
-                company = [[norm(x) for x in e[1]] for e in events if e[0] == "exec" and j["path"] in e[1]]
-                alone = [[n1(x) for x in e[1]] for e in ev1 if e[0] == "exec" and j["path"] in e[1]]
+                def appended(argv, cos):
+                    """the arguments after the configured command line (and the interpreter put in front of a .py program)"""
+                    for o in cos:
+                        if o[0] == "X":
+                            for k in (0, 1):
+                                if argv[k:k + len(o[2])] == list(o[2]):
+                                    return argv[k + len(o[2]):]
+                    return argv
+                company = [[norm(x) for x in e[1]] for e in events if e[0] == "exec" and j["path"] in appended(e[1], cobjs)]
+                alone = [[n1(x) for x in e[1]] for e in ev1 if e[0] == "exec" and j["path"] in appended(e[1], cobjs1)]
                 st1 = R.stat(j["path"])
                 ctx.count("filepp_company_vs_alone")
                 if err1 is not None or company != alone or st1 != fs[j["path"]]:
